@@ -34,13 +34,28 @@ class FunctionReport:
 _PAR = {}
 
 
+MAX_FAILED_PER_WORKER = 3  # once a function has that many undischarged obligations the rest is not attempted
+
+
+def _discharge_seq(axioms, items, tier, budget_ms):
+    """items: [(index, obligation)]; after MAX_FAILED_PER_WORKER failures the remaining obligations
+    are reported `skipped` (never counted as discharged): one failed obligation is enough to report the
+    function, and a changed function otherwise costs (number of obligations x full solver budget)"""
+    out, failed = [], 0
+    for idx, ob in items:
+        if failed >= MAX_FAILED_PER_WORKER and ob.kind != "vacuity":
+            out.append((idx, Verdict(ob.name, "skipped", "-", 0, ob.where, ob.kind, detail=f"not attempted: {failed} obligations of this function already failed")))
+            continue
+        v = discharge(axioms, ob, tier, budget_ms)
+        if v.status != "discharged" and ob.kind != "vacuity":
+            failed += 1
+        out.append((idx, v))
+    return out
+
+
 def _solve_slice(k):
     axioms, obs, tier, budget_ms, n = _PAR["args"]
-    out = []
-    for idx, ob in enumerate(obs):
-        if idx % n == k:
-            out.append((idx, discharge(axioms, ob, tier, budget_ms)))
-    return out
+    return _discharge_seq(axioms, [(idx, ob) for idx, ob in enumerate(obs) if idx % n == k], tier, budget_ms)
 
 
 def _parallel_discharge(axioms, obs, tier, budget_ms, n):
@@ -77,7 +92,7 @@ def verify(target: str, tier: str = "quick", budget_ms: int = 10000, shard=(0, 1
             # built by the symbolic execution are inherited through fork, nothing is re-executed)
             verdicts = _parallel_discharge(axioms, obs, tier, budget_ms, n_par)
         else:
-            verdicts = [discharge(axioms, ob, tier, budget_ms) for ob in obs]
+            verdicts = [v for _, v in _discharge_seq(axioms, list(enumerate(obs)), tier, budget_ms)]
         for v in verdicts:
             rep.verdicts.append(v)
             rep.solver_ms += v.ms
